@@ -334,7 +334,7 @@ class TokenizerState:
 
     def add_prog(self, start: int, end: int, **kwargs: Any) -> None:
         self.end_progs.append(
-            EndProg(text=self.line[start:end], contline=self.line, start=(self.lnum, start), **kwargs)
+            EndProg(text=self.line[start:end], contline=self.line, upto=self.lnum, start=(self.lnum, start), **kwargs)
         )
 
     def prog_token(self, end: int, tok: Token) -> TokenInfo:
@@ -387,21 +387,29 @@ class EndProg:
     mode: Mode | None = None
     pattern: re.Pattern[str] | str = ""  # end pattern
     text: str = ""
-    contline: str = ""  # str
+    contline: str = ""  # the physical lines the text lies on, first to current, each once
+    upto: int = 0  # number of the last line held in contline
     start: tuple[int, int] = (0, 0)
     quote: str = ""
 
     def join(self, state: TokenizerState, end: int) -> None:
+        self.cover(state)
         self.text += state.line[state.pos : end]
 
     def join_line(self, state: TokenizerState) -> None:
+        self.cover(state)
         self.text += state.line[state.pos :]
-        self.contline += state.line
+
+    def cover(self, state: TokenizerState) -> None:
+        if state.lnum > self.upto:
+            self.contline += state.line
+            self.upto = state.lnum
 
     def reset(self, start: tuple[int, int]) -> None:
         self.start = start
         self.text = ""
         self.contline = ""
+        self.upto = 0
 
 
 def next_statement(state: TokenizerState) -> Generator[TokenInfo, None, bool | None]:
